@@ -25,7 +25,7 @@ CLAIMED = {
    note="Trusted: the reference interpreter (harness/hx/model.go) and the trace parser. Unspecified: negative offset/limit (only internal consistency of the trace is asserted), iteration order of maps, break inside tablerow (cell text only), two cycle tags of one group with different value lists.",
    ref="DESIGN.md 7.C11"),
  "C12": dict(
-   technique="property-based testing: rapid-generated programs against a reference interpreter, plus the capture-equivalence metamorphic relation",
+   technique="property-based testing: rapid-generated programs against a reference interpreter, the capture-equivalence metamorphic relation, and an exhaustive family with a Drop over live state shadowed by a loop",
    text="Generated programs interleaving assign, capture, loops that shadow outer names and forloop, conditionals and cycles end with a read of every variable and are compared with the reference interpreter; every generated fragment F is also rendered directly and through capture+print, which must agree.",
    note="Trusted: the reference interpreter. The include clause of the statement is exercised by C14's check (included templates read assigned variables). Outcomes the statements leave open are counted as unspecified and asserted nowhere.",
    ref="DESIGN.md 7.C12"),
@@ -52,7 +52,7 @@ CLAIMED = {
  "C18": dict(
    technique="property-based testing: metamorphic relation between two realisations of the same logical bindings (canonical vs independently re-represented at every node), on rapid-generated role-typed programs, an exhaustive numeric-width grid and an exhaustive filter x universe x wrapping sweep",
    text="Role-typed generated programs are rendered against canonical bindings and against bindings in which every node independently takes another representation the statement names (numeric width, typed slice/array/map, ordered map, []byte, Drop at any depth incl. Drop-of-Drop, pointer); every numeric value x width x operator and every filter x universe value x {Drop, nested Drop, pointer, Drop-wrapped elements} as receiver and as argument must render as the unwrapped/canonical form.",
-   note="Trusted: hx.Spec.Realise builds equal logical values. Representations are only used in the positions the statement names (numeric variables not as index/limit/offset, ordered map only lookup and size, []byte only printed, arrays not where a string is expected); type/inspect/json report the Go value by design and are unspecified.",
+   note="Trusted: hx.Spec.Realise builds equal logical values. Representations are only used in the positions the statement names (ordered map only lookup and size, []byte only printed, arrays with Drop elements not where a string is expected; numbers of every width also as index, range bound, limit/offset/cols and integer filter arguments; typed slices of every integer width in every position); type/inspect/json report the Go value by design and are unspecified.",
    ref="DESIGN.md 7.C18"),
  "C13": dict(
    technique="property-based testing: metamorphic relations between the hyphen-free and the hyphenated spelling of rapid-generated templates, exhaustive over the hyphen subsets of each template (2^k for k <= 10)",
@@ -60,7 +60,7 @@ CLAIMED = {
    note="All three relations are between executions of the implementation; the harness only decides statically which text token a hyphen faces (after merging adjacent text). Hyphens on the inner side of raw/comment are excluded from the strong relation (C05 governs raw bodies).",
    ref="DESIGN.md 7.C13"),
  "C05": dict(
-   technique="property-based testing: bounded-exhaustive strings over the delimiter alphabet plus rapid-generated byte/UTF-8 strings (native go fuzzing of the tokenizer in the thorough tier) against the tokenizer partition law, the identity law, the raw/comment laws and exact value printing",
+   technique="property-based testing: bounded-exhaustive strings over the delimiter alphabet plus rapid-generated byte/UTF-8 strings (native go fuzzing of the tokenizer in the thorough tier) against the tokenizer partition law, the identity law, the raw/comment laws and exact value printing (also next to whitespace-control hyphens)",
    text="Every string up to length 6 (8 thorough) over { } % - quote space newline a, and random strings up to 64 KiB, are tokenized and checked against the partition law (sources concatenate to the input, trim tokens zero-width, line = start + preceding newlines); strings without openers must render to themselves; every self-contained raw/comment body must come out verbatim / vanish without being evaluated; string values of any bytes must be printed exactly.",
    note="Trusted: the reference scan that decides whether a raw/comment body keeps to itself (bodies that swallow their closer are outside the statement and are excluded and counted).",
    ref="DESIGN.md 7.C05"),
@@ -70,8 +70,8 @@ CLAIMED = {
    note="Trusted: the 60-line reference acceptor in c06_test.go (its clause-admission table restates the statement). Branch choice when else is not the last clause, and a for with several else clauses, are left to C10/C11 (unspecified here).",
    ref="DESIGN.md 7.C06"),
  "C07": dict(
-   technique="property-based testing: product of failing-construct kinds x nesting depth x path x starting line with generated layouts; oracle computed from the construction (newline count before the failing token) and a cause-chain walk",
-   text="24 kinds of failing construct are placed at every depth 0..6 of entered blocks, with generated newline layouts and multi-line tags, parsed with and without a path and with starting lines 0/1/37; the error's LineNumber, Path, message and Cause chain are compared with what the construction determines, and Render must not return output with an error.",
+   technique="property-based testing: product of failing-construct kinds x nesting depth x path x starting line with generated layouts; oracle computed from the construction (newline count before the failing token) and the cause (the filter's own error through its FilterError wrapper; a conversion error as Cause() itself)",
+   text="33 kinds of failing construct are placed at every depth 0..6 of entered blocks, with generated newline layouts and multi-line tags, parsed with and without a path and with starting lines 0/1/37; the error's LineNumber, Path, message and Cause chain are compared with what the construction determines, and Render must not return output with an error.",
    note="Trusted: the harness's own bookkeeping of where the failing token starts; for unclosed blocks the expected location is the first token the C06 reference acceptor rejects (or the opener at end of input). Message text is only checked for naming the offending filter/tag or carrying the sentinel.",
    ref="DESIGN.md 7.C07"),
  "C19": dict(
@@ -81,14 +81,14 @@ CLAIMED = {
    ref="DESIGN.md 7.C19"),
  "C20": dict(
    category="fault_enumeration",
-   technique="fault injection driven by property-based generation: for each rapid-generated program every write call k x {nothing accepted, strict prefix accepted} x {FRender, ParseAndFRender} is failed with a sticky sentinel writer; prefix, sentinel-carrying error and stop-of-evaluation oracles",
-   text="For every generated program (all tags, include, hyphens) the write calls of a fault-free render are enumerated and each one is failed in turn, in two modes and through both entry points: the call must return a non-nil SourceError carrying the writer's error, never panic, the accepted bytes must be a prefix of the fault-free output, and counting filters show that evaluation stopped. Enumeration over k is exhaustive per program; programs are sampled.",
+   technique="fault injection driven by property-based generation: for each rapid-generated program every write call k x {nothing accepted, strict prefix accepted} x {FRender, ParseAndFRender} x {the writer keeps failing, fails only that once} is failed with a sentinel writer; prefix, error-names-and-wraps-the-sentinel and stop-of-evaluation oracles",
+   text="For every generated program (all tags, include, hyphens) the write calls of a fault-free render are enumerated and each one is failed in turn, in four modes and through both entry points: the call must return a non-nil SourceError whose message names and whose cause chain reaches the writer's error, never panic, the accepted bytes must be a prefix of the fault-free output, and counting filters show that evaluation stopped. Enumeration over k is exhaustive per program; programs are sampled.",
    note="Trusted: the recording/fault writers and the counting filter. 'Stops' is asserted with one buffered write of slack (the trim writer holds the last write back) and at most one further Write call.",
    ref="DESIGN.md 7.C20"),
  "C14": dict(
-   technique="property-based testing: metamorphic relation include = inlined content over rapid-generated include graphs laid out in temporary directories with per-file disk/cache/both/empty/missing states",
+   technique="property-based testing: metamorphic relation include = the selected content rendered on its own (capture) and inserted as a value, over rapid-generated include graphs laid out in temporary directories with per-file disk/cache/both/empty/missing states",
    text="Generated include graphs (chains to depth 4, leaves in nested directories, equal base names with distinct content) with every file independently on disk, cache-only, in both with different content, zero bytes on disk, or missing, and include arguments spelled six ways, must render exactly like the template in which every include is replaced recursively by the content the statement selects; missing files, non-string arguments and errors inside included templates must fail the render without output.",
-   note="Trusted: the harness's inliner (disk over cache). Nested includes are only issued from files in the top template's directory, where 'relative to the directory of the path' has one reading; variables assigned inside an included template are not probed afterwards. Temporary directories live under the run's scratch directory and are removed per case.",
+   note="Trusted: the harness's inliner (disk over cache). Relative names are resolved against the directory of the path the rendered (top-level) template was parsed with, at every depth; a second top-level template in a sub-directory is rendered on the same engine for a third of the cases; variables assigned inside an included template are not probed afterwards; a hyphen facing an include tag from the includer's side is never generated (not stated). Temporary directories live under the run's scratch directory and are removed per case.",
    ref="DESIGN.md 7.C14"),
  "C02": dict(
    technique="property-based testing: identity relation over ~21 executions per generated case (entry points, re-parses, fresh engines, a fresh process, the command-line binary) with bindings re-realised in other insertion orders and at other addresses",
@@ -102,7 +102,7 @@ CLAIMED = {
    ref="DESIGN.md 7.C03"),
  "C04": dict(
    technique="property-based testing under the Go race detector: rapid-generated concurrent parse/render workloads on shared engine, templates and bindings, each case a subtest so that a race report is attributed to it; differential oracle against the sequential results",
-   text="Generated workloads of 2..32 goroutines (barrier-released, GOMAXPROCS 2/4/16) parse and render 1..5 templates covering every standard tag and every standard filter on one engine, one set of parsed templates and one shared binding environment with Drops, pointers and spare capacity; the race detector must stay silent and every concurrent result must equal the same operation run alone beforehand.",
+   text="Generated workloads of 2..32 goroutines (barrier-released, GOMAXPROCS 2/4/16) parse and render 1..5 templates covering every standard tag and every standard filter on one engine, one set of parsed templates and one shared binding environment with Drops, pointers and spare capacity; the race detector must stay silent and every concurrent result must equal the same operation run alone (on a separately parsed copy of the templates, so that first renders happen concurrently; on a cold engine the goroutines go first). A quarter of the cases use delimiters of their own; custom tag/block using render.Context services and all six entry points take part; a worker stopped by the Go runtime's concurrent-map check inside library code counts as a race.",
    note="Schedules are sampled, not enumerated; the race detector's happens-before analysis makes detection of an executed unsynchronised access pair independent of timing, but a race on a path no generated template executes is out of reach. The static half of the quantifier ('no render-time closure writes a compile-time variable') is a static-analysis obligation outside this technique family and is not claimed. The detector reports each stack pair once per process, so cases grow in size with their index and the first reporting case is kept as the replay.",
    ref="DESIGN.md 7.C04"),
 }
